@@ -1,4 +1,4 @@
-import DcmVerif.Proofs.Key
+import DcmVerif.Proofs.Total
 import DcmVerif.Props.C01_stack
 /-! Property theorems for C01. Statements only; proofs are by reference to `Proofs/`. -/
 set_option autoImplicit false
@@ -64,6 +64,46 @@ theorem convert_canonical_key (null : α) (S T V : Nat) (hS : 0 < S) (hT : 2 ≤
         ¬ RepOK ⟨5, S, T, V, true, true, true⟩
             (fun s t v => lookupKS null ⟨5, S, T, V, true, true, true⟩ r s t v) e :=
   _root_.convert_canonical_key null S T V hS hT hV val vol vec r hvol hvec hfin
+
+/-- **C01 without the premise (5-D result):** for every assignment of values (or absence) to the
+    files of a complete S × T × V stack (T, V ≥ 2) all three levels of merging succeed and the
+    summary returns at every position exactly what that file carried. -/
+theorem convert_total (null : α) (S T V : Nat) (hS : 0 < S) (hT : 2 ≤ T) (hV : 2 ≤ V)
+    (val : Nat → Nat → Nat → Option α) :
+    ∃ (vol : Nat → Nat → KeyState α) (vec : Nat → KeyState α) (r : KeyState α),
+      (∀ t v, t < T → v < V →
+        mergeSliceK null ⟨3, 1, 1, 1, true, false, false⟩
+          ((List.range S).map fun s => fileKS (val s t v)) = .ok (vol t v)) ∧
+      (∀ v, v < V →
+        mergeTimeK null ⟨4, S, 1, 1, true, true, false⟩ ⟨3, S, 1, 1, true, false, false⟩
+          ((List.range T).map fun t => vol t v) = .ok (vec v)) ∧
+      mergeVecK null ⟨5, S, T, 1, true, true, true⟩ ⟨4, S, T, 1, true, true, false⟩
+          ((List.range V).map vec) = .ok r ∧
+      ∀ s t v, s < S → t < T → v < V →
+        lookupKS null ⟨5, S, T, V, true, true, true⟩ r s t v = some ((val s t v).getD null) :=
+  Total.convert_total null S T V hS hT hV val
+
+/-- **C01 without the premise (4-D result)** -/
+theorem convert_total_4d (null : α) (S T : Nat) (hS : 0 < S) (hT : 2 ≤ T)
+    (val : Nat → Nat → Option α) :
+    ∃ (vol : Nat → KeyState α) (r : KeyState α),
+      (∀ t, t < T →
+        mergeSliceK null ⟨3, 1, 1, 1, true, false, false⟩
+          ((List.range S).map fun s => fileKS (val s t)) = .ok (vol t)) ∧
+      mergeTimeK null ⟨4, S, 1, 1, true, true, false⟩ ⟨3, S, 1, 1, true, false, false⟩
+          ((List.range T).map vol) = .ok r ∧
+      ∀ s t, s < S → t < T →
+        lookupKS null ⟨4, S, T, 1, true, true, false⟩ r s t 0 = some ((val s t).getD null) :=
+  Total.convert_total_4d null S T hS hT val
+
+/-- **C01 without the premise (3-D result)** -/
+theorem convert_total_3d (null : α) (S : Nat) (hS : 0 < S) (val : Nat → Option α) :
+    ∃ r : KeyState α,
+      mergeSliceK null ⟨3, 1, 1, 1, true, false, false⟩
+        ((List.range S).map fun s => fileKS (val s)) = .ok r ∧
+      ∀ s, s < S →
+        lookupKS null ⟨3, S, 1, 1, true, false, false⟩ r s 0 0 = some ((val s).getD null) :=
+  Total.convert_total_3d null S hS val
 
 end C01
 
